@@ -426,8 +426,9 @@ func runC16(c *Ctx) {
 		j := jobs[i]
 		cd := publishedCorrection(w.defs, j.s.it.Regime, j.s.it.Addons)
 		ob, _ := json.Marshal(j.o)
+		data := ob
 		wit := func() map[string]any {
-			return map[string]any{"source": j.s.it.Rel, "variant": j.s.variant, "options": j.o}
+			return map[string]any{"source": j.s.it.Rel, "variant": j.s.variant, "options": j.o, "request": string(data)}
 		}
 		env, err := gx.ParseEnvelope(j.s.env)
 		if err != nil {
@@ -437,7 +438,30 @@ func runC16(c *Ctx) {
 		fpB, _ := walk.Fingerprint(env)
 		var res *gobl.Envelope
 		var cerr error
-		if p, _ := Safely(func() { res, cerr = env.Correct(bill.WithData(json.RawMessage(ob))) }); p != nil {
+		// every third request carries members the options do not define (a client echoing
+		// back an envelope's parts): they are no options, so the outcome is that of the
+		// plain request and the source stays as it was
+		if i%3 == 0 {
+			var m map[string]json.RawMessage
+			if json.Unmarshal(ob, &m) == nil {
+				extras := [][2]string{
+					{"head", `{"uuid":"0190a1b2-c3d4-7e5f-8a9b-0c1d2e3f4a5b","dig":{"alg":"sha256","val":"00"},"stamps":[{"prv":"verif-echo","val":"stale"}],"notes":"echoed header"}`},
+					{"doc", `{"$schema":"https://gobl.org/draft-0/note/message","content":"echo"}`},
+					{"sigs", `["eyJhbGciOiJFUzI1NiJ9.e30.AAAA"]`},
+					{"$schema", `"https://gobl.org/draft-0/envelope"`},
+					{"Head", `{"uuid":"0190a1b2-c3d4-7e5f-8a9b-0c1d2e3f4a5b","notes":"echoed header"}`},
+				}
+				x := extras[(i/3)%len(extras)]
+				if _, dup := m[x[0]]; !dup {
+					m[x[0]] = json.RawMessage(x[1])
+					if b, merr := json.Marshal(m); merr == nil {
+						data = b
+						c.R.Count("requests_with_undefined_members", 1)
+					}
+				}
+			}
+		}
+		if p, _ := Safely(func() { res, cerr = env.Correct(bill.WithData(json.RawMessage(data))) }); p != nil {
 			c.R.Count("panics", 1)
 			return
 		}
@@ -650,7 +674,7 @@ func runC16(c *Ctx) {
 	})
 
 	c16entryPoints(c, sources[:min(len(sources), c.N(24, 146))])
-	c.Require("accepted", "option_passing_ways_compared", "replications", "cli:correct-accepted", "bulk:correct-accepted")
+	c.Require("accepted", "requests_with_undefined_members", "option_passing_ways_compared", "replications", "cli:correct-accepted", "bulk:correct-accepted")
 }
 
 func checkReplica(src, res *jmut.Node, d0, d1 string, recalc bool) (field, detail string) {
